@@ -109,7 +109,25 @@ impl MemoryAreas {
   }
 
   pub fn get_rom_bank(&self) -> usize {
-    self.cart_state.get_rom_bank()
+    // reduce the controller's bank number to the banks this cartridge has
+    self.cart_state.get_rom_bank() % (self.rom.len() / 0x4000)
+  }
+
+  /// Index into cart_ram for an address in 0xa000-0xbfff, or None when the
+  /// cartridge has no RAM cell there (no RAM at all, or a 2KB chip)
+  pub fn get_cart_ram_index(&self, addr: u16) -> Option<usize> {
+    let banks = self.cart_ram.len() / 0x2000;
+    let bank = if banks == 0 {
+      0
+    } else {
+      self.cart_state.get_ram_bank() % banks
+    };
+    let index = 0x2000 * bank + (addr as usize & 0x1fff);
+    if index < self.cart_ram.len() {
+      Some(index)
+    } else {
+      None
+    }
   }
 
   pub fn run_clock_cycles(&mut self, cycles: ClockCycles) {
@@ -167,7 +185,7 @@ pub fn get_executable_memory_slice<'s>(start: usize, mem_ptr: *const MemoryAreas
   match start {
     0x0000..=0x3fff => &mem.rom[start..0x4000],
     0x4000..=0x7fff => {
-      let bank_start = mem.cart_state.get_rom_bank() * 0x4000;
+      let bank_start = mem.get_rom_bank() * 0x4000;
       let bank_end = bank_start + 0x4000;
       let offset = (start & 0x3fff) + bank_start;
       &mem.rom[offset..bank_end]
@@ -200,15 +218,17 @@ pub extern "sysv64" fn memory_read_byte(areas: *const MemoryAreas, addr: u16) ->
   }
   if addr < 0x8000 { // ROM Bank NN
     let offset = addr as usize & 0x3fff;
-    return memory_areas.rom[0x4000 * memory_areas.cart_state.get_rom_bank() + offset];
+    return memory_areas.rom[0x4000 * memory_areas.get_rom_bank() + offset];
   }
   if addr < 0xa000 { // VRAM
     let offset = addr as usize & 0x1fff;
     return memory_areas.video_ram[offset];
   }
   if addr < 0xc000 { // Cart RAM
-    let offset = addr as usize & 0x1fff;
-    return memory_areas.cart_ram[0x2000 * memory_areas.cart_state.get_ram_bank() + offset];
+    return match memory_areas.get_cart_ram_index(addr) {
+      Some(index) => memory_areas.cart_ram[index],
+      None => 0xff,
+    };
   }
   if addr < 0xd000 { // Work RAM Bank 0
     let offset = addr as usize & 0xfff;
@@ -255,8 +275,9 @@ pub extern "sysv64" fn memory_write_byte(areas: *mut MemoryAreas, addr: u16, val
     return;
   }
   if addr < 0xc000 { // Cart RAM
-    let offset = addr as usize & 0x1fff;
-    memory_areas.cart_ram[0x2000 * memory_areas.cart_state.get_ram_bank() + offset] = value;
+    if let Some(index) = memory_areas.get_cart_ram_index(addr) {
+      memory_areas.cart_ram[index] = value;
+    }
     return;
   }
   if addr < 0xd000 { // Work RAM Bank 0
